@@ -54,62 +54,63 @@ Definition rdir (x : xst) (e : bool) : xdir := if e then x_ba x else x_ab x.   (
 Definition set_wdir (x : xst) (e : bool) (d : xdir) : xst := if e then mkXS d (x_ba x) else mkXS (x_ab x) d.
 Definition set_rdir (x : xst) (e : bool) (d : xdir) : xst := if e then mkXS (x_ab x) d else mkXS d (x_ba x).
 
-Definition xexec (x : xst) (e : bool) (o : xop) : list (xst * obs) :=
+Definition xsettle (x : xst) : list xst :=
+  flat_map (fun a => map (fun b => mkXS (mkX a (wsoon (x_ab x)) (rsoon (x_ab x))) (mkX b (wsoon (x_ba x)) (rsoon (x_ba x))))
+                         (settle_dir (wsoon (x_ba x)) (rsoon (x_ba x)) (xd (x_ba x))))
+           (settle_dir (wsoon (x_ab x)) (rsoon (x_ab x)) (xd (x_ab x))).
+Definition upd_w (x : xst) (e : bool) (l : list dstate) : list xst :=
+  let d := wdir x e in map (fun s => set_wdir x e (mkX s (wsoon d) (rsoon d))) l.
+Definition upd_r (x : xst) (e : bool) (l : list dstate) : list xst :=
+  let d := rdir x e in map (fun s => set_rdir x e (mkX s (wsoon d) (rsoon d))) l.
+
+(* the call itself, then every parked call continues as far as it can *)
+Definition xexec (x : xst) (e : bool) (o : xop) : list xst :=
+  flat_map xsettle
   match o with
-  | XWrite p =>
-      let d := wdir x e in
-      map (fun so => (set_wdir x e (mkX (fst so) (wsoon d) (rsoon d)), snd so)) (exec_write (xd d) (wsoon d) p)
-  | XRead n =>
-      let d := rdir x e in
-      map (fun so => (set_rdir x e (mkX (fst so) (wsoon d) (rsoon d)), snd so)) (exec_read (xd d) (rsoon d) n)
-  | XWriteStart p =>
-      let d := wdir x e in
-      map (fun so => (set_wdir x e (mkX (fst so) (wsoon d) (rsoon d)), snd so)) (exec_write_start (xd d) p)
-  | XWriteJoin _ =>
-      let d := wdir x e in
-      match wp (xd d) with
-      | WBlk _ _ => map (fun so => (set_wdir x e (mkX (fst so) (wsoon d) (rsoon d)), snd so)) (exec_write_resume (xd d) (wsoon d))
-      | _ => []
-      end
-  | XReadStart n =>
-      let d := rdir x e in
-      map (fun so => (set_rdir x e (mkX (fst so) (wsoon d) (rsoon d)), snd so)) (exec_read_start (xd d) n)
-  | XReadJoin _ =>
-      let d := rdir x e in
-      match rp (xd d) with
-      | RWait _ _ => map (fun so => (set_rdir x e (mkX (fst so) (wsoon d) (rsoon d)), snd so)) (exec_read_resume (xd d) (rsoon d))
-      | _ => []
-      end
+  | XWrite p | XWriteStart p => upd_w x e (write_start (xd (wdir x e)) p)
+  | XRead n | XReadStart n => upd_r x e (read_start (xd (rdir x e)) n)
+  | XWriteJoin _ | XReadJoin _ => [x]
   | XClose =>
       match step (xd (x_ab x)) LClose, step (xd (x_ba x)) LClose with
-      | Some a, Some b => [(mkXS (mkX a (wsoon (x_ab x)) (rsoon (x_ab x))) (mkX b (wsoon (x_ba x)) (rsoon (x_ba x))), ObNil)]
+      | Some a, Some b => [mkXS (mkX a (wsoon (x_ab x)) (rsoon (x_ab x))) (mkX b (wsoon (x_ba x)) (rsoon (x_ba x)))]
       | _, _ => []
       end
   | XSetW k =>
       let d := wdir x e in
       match step (xd d) (LSetWDl (dl_of k)) with
-      | Some s => [(set_wdir x e (mkX s (is_soon k) (rsoon d)), ObNil)]
+      | Some s => [set_wdir x e (mkX s (is_soon k) (rsoon d))]
       | None => []
       end
   | XSetR k =>
       let d := rdir x e in
       match step (xd d) (LSetRDl (dl_of k)) with
-      | Some s => [(set_rdir x e (mkX s (wsoon d) (is_soon k)), ObNil)]
+      | Some s => [set_rdir x e (mkX s (wsoon d) (is_soon k))]
       | None => []
       end
+  end.
+(* what the caller sees *)
+Definition xobserve (x : xst) (e : bool) (o : xop) : obs :=
+  match o with
+  | XWrite _ => let d := xd (wdir x e) in if w_parked d then ObBlocked else last_w (hist d)
+  | XWriteStart _ => let d := xd (wdir x e) in if w_parked d then ObParked else last_w (hist d)
+  | XWriteJoin _ => let d := xd (wdir x e) in if w_parked d then ObBlocked else last_w (hist d)
+  | XRead _ => let d := xd (rdir x e) in if r_parked d then ObBlocked else last_r (hist d)
+  | XReadStart _ => let d := xd (rdir x e) in if r_parked d then ObParked else last_r (hist d)
+  | XReadJoin _ => let d := xd (rdir x e) in if r_parked d then ObBlocked else last_r (hist d)
+  | _ => ObNil
   end.
 
 Definition nlist_eqb (a b : list N) : bool := list_eqb N.eqb a b.
 
 (* the implementation's transcript is one the transition system can produce, with the same
-   channel occupancy and current-buffer length after every call *)
+   channel occupancy and current-buffer length after every call (when nothing is parked) *)
 Fixpoint pipe_corr (x : xst) (ops : list prec) : bool :=
   match ops with
   | [] => true
   | r :: rest =>
-      existsb (fun xo => obs_eqb (snd xo) (p_obs r) &&
+      existsb (fun x' => obs_eqb (xobserve x' (p_end r) (p_op r)) (p_obs r) &&
                          (if is_blocked (p_obs r) then is_nil rest
-                          else (is_nil (p_snap r) || nlist_eqb (snap_of (fst xo)) (p_snap r)) && pipe_corr (fst xo) rest))
+                          else (is_nil (p_snap r) || nlist_eqb (snap_of x') (p_snap r)) && pipe_corr x' rest))
               (xexec x (p_end r) (p_op r))
   end.
 
